@@ -352,6 +352,10 @@ def _make_set(rng, version, level, mult, theta=None):
         js = [str(s) for s in rng.permutation(J_SPECS)]
         if version == "ij":
             js = js[:2]
+        else:
+            # a spec may occur twice with different parameters (second se_erf_rinv with another erf_mul, second se with
+            # another exponent): tables and constants belong to the parameter set, not to the spec name
+            js.append("se_erf_rinv" if rng.random() < 0.5 else str(rng.choice(J_SPECS)))
         jp = [_params(rng, level, erf=(s == "se_erf_rinv")) for s in js]
         desc.update(j_specs=js, j_params=jp)
         feats += [("vj:%s|%s" % (s, mult), "v%s:%s,%s" % (version, s, mult)) for s in js]
